@@ -43,3 +43,41 @@ def site_table(ctx, cfgs, kinds):
                     s['ok'] = False
                     s['fail'].append((cfg, r['root'], o.get('variant', ''), o['detail']))
     return sites, errors, stats
+
+
+def root_table(ctx, cfgs, root_rx, kinds):
+    """obligations of `kinds` produced while analysing roots whose path matches root_rx.
+    Returns (sites, roots_seen, errors): sites keyed by (kind, obligation path, role)."""
+    import re
+    rx = re.compile(root_rx)
+    sites, roots_seen, errors = {}, {}, []
+    for cfg in cfgs:
+        res = results(ctx, cfg)
+        for r in res['roots']:
+            if not rx.search(r['path']):
+                continue
+            roots_seen.setdefault(cfg, []).append(r['path'])
+            if r['error']:
+                errors.append((cfg, r['root'], r['error']))
+            for o in r['obs']:
+                if o['kind'] not in kinds:
+                    continue
+                k = (o['kind'], o['path'], o['role'])
+                s = sites.setdefault(k, {'ok': True, 'n': 0, 'cfgs': set(), 'fail': [], 'loc': o['loc'], 'detail': o['detail']})
+                s['n'] += 1
+                s['cfgs'].add(cfg)
+                if not o['ok']:
+                    s['ok'] = False
+                    s['fail'].append((cfg, r['root'], o.get('variant', ''), o['detail']))
+    return sites, roots_seen, errors
+
+
+def emit(rep, sites, errors):
+    for cfg, root, err in errors:
+        rep.add('E2-ROOT', root, False, cfg=cfg, detail=err.splitlines()[0][:300])
+    per_kind = {}
+    for (kind, path, role), s in sorted(sites.items()):
+        per_kind[kind] = per_kind.get(kind, 0) + 1
+        det = s['detail'] if s['ok'] else '; '.join(f"[{c}] root {r} ({v}): {d}" for c, r, v, d in s['fail'][:2])
+        rep.add(kind, f"{path}|{role}", s['ok'], where=s['loc'], cfg=','.join(sorted(s['cfgs'])), detail=(det or '')[:600])
+    return per_kind
